@@ -5,6 +5,20 @@ from . import gen, specsem
 from .harness import Ctx
 
 
+def _own_closure(desc, node):
+    """Nodes derived from `node` alone over plain derivation edges (no choice taken)."""
+    succ = {}
+    for u, v in desc.all_edges():
+        succ.setdefault(u, []).append(v)
+    seen, todo = set(), [node]
+    while todo:
+        n = todo.pop()
+        if n not in seen:
+            seen.add(n)
+            todo += succ.get(n, [])
+    return seen
+
+
 def read_assignment(b, dsg):
     """The option taken for every choice of the description that is no longer a choice node of `dsg` while its
     originating node is present: read off the originating-node -> option derivation edges."""
@@ -89,10 +103,15 @@ def walk(b, dsg, ctx, taken, leaves, seen, ref_adm, props, depth=0):
             t2[cid] = oname
             if 'C06' in props and feasible:
                 cl = specsem.closure(desc, {**read_assignment(b, dsg), **t2})
+                # the failing situation named by the check itself: the option's OWN derivations (no other choice, no
+                # other part of the instance involved) already contain both ends of a constraint
+                own = _own_closure(desc, oname)
+                self_conflict = any(x in own and y in own for x, y in desc.incompat)
                 ctx.check('C06.offered-option-does-not-force-a-conflict', specsem.conflict_free(desc, cl),
                           wit + [cid, oname],
                           f'option {oname} of {cid} is offered although its closure {sorted(cl)} contains an '
-                          f'incompatible pair', nt + (cid, oname))
+                          f'incompatible pair', nt + (cid, oname),
+                          wclass='option-derives-its-own-incompatible-node|graph-api' if self_conflict else None)
             k2 = (tuple(sorted(t2.items())), 'via', cid)
             if k2 in seen:
                 continue
